@@ -265,7 +265,8 @@ class RuleFieldDescriptor:
 
     def __from_json_object__(json_object):
         target_value: TargetValue
-        if json_object['compression_decompression_action'] == CompressionDecompressionAction.MAPPING_SENT:
+        if isinstance(json_object['target_value'], list):
+            # a match mapping is serialised as a list of index/value entries, a buffer as an object
             target_value = MatchMapping.__from_json_object__(json_object=json_object['target_value'])
         else:
             target_value = Buffer.__from_json_object__(json_object=json_object['target_value'])
